@@ -25,7 +25,10 @@ Inductive site :=
 | SDeltaRelation   (* database.generateDatabaseScriptModify: GetRelation() of a non-table type handed to the table writers *)
 | SDeltaTrim       (* database.writeModifySQLForATable: str[:len(str)-1] on an empty column definition *)
 | STemplateApp     (* transforms templated.Apply and semantic.Apply: eval.addAppToValueMap(nil) for an --app-name the model does not define *)
-| SRigApp.         (* testrig.appNeedsDB: app.Attrs of a service that names no application *)
+| SRigApp          (* testrig.appNeedsDB: app.Attrs of a service that names no application *)
+| SFmtParse        (* cmdutils.FormatParser.Expansions: panic on a format string (taken from the model's attributes) that was not tried first *)
+| SNameStack       (* importer.OpenAPI3Importer.popName: o.nameStack[:len-1] on an empty stack (slice bounds out of range [:-1]) *)
+| SImpRespField.   (* importer.OpenAPI3Importer.buildResponses: f.Type.Name() on the empty Field returned with an error *)
 
 Inductive outcome := Ok | Err | Panic (s:site) | OutOfFuel.
 
